@@ -364,7 +364,7 @@ class Harness:
             res.add("C04", "covariance_value", "C04:py:covariance_value", i, f"P' = G P G^T + V M V^T = {Pr.tolist()}", f"{co.data.tolist()} (rel err {eP:.3g}) dt={dt!r}")
         if (st.data.tobytes(), cov.data.tobytes(), None if ctl is None else ctl.data.tobytes()) != snap:
             res.add("C04", "input_mutated", "C04:py:input_mutated", i, "state, covariance and control inputs unmodified", "an input array changed during process_model")
-        self.cov_invariant(i, co.data, P_in, "predict")
+        self.cov_invariant(i, co.data, P_in, "predict", float(np.linalg.norm(parts["G"], 2)) ** 2 if parts["G"].size else 1.0)
         if self.step % 16 == 0:
             sc = ref.spot_check(dt, x_in, u)
             if max(abs(sc[s] - xr[s]) for s in self.S) > 1e-9 * (1 + max(abs(v) for v in xr.values())):
@@ -381,18 +381,25 @@ class Harness:
             res.stats["probe:negative_dt"] += 1
         return so, co
 
-    def cov_invariant(self, i, P, P_prior, where):
+    def cov_invariant(self, i, P, P_prior, where, gain):
+        """C09 invariant on a returned covariance, per step: it may carry on the (rounding-level) asymmetry / negativity its
+        INPUT already had, amplified by at most the step's own gain (||G||^2 for a prediction, ||I-KH|| for an update), plus
+        fresh rounding of 1e-9 relative. Inherited error is accumulated rounding of a long history (an unstable model
+        amplifies it like everything else); error the step itself injects is a violation."""
         res = self.res
         if not P.size:
             return
         sc = max(1.0, float(np.max(np.abs(P))), float(np.max(np.abs(P_prior))))
-        a = float(np.max(np.abs(P - P.T))) / sc
-        neg = max(0.0, -reference.min_eig(P)) / sc
-        self.worst["asym"], self.worst["neg"] = max(self.worst["asym"], a), max(self.worst["neg"], neg)
-        if a > 1e-8:
-            res.add("C09", "asymmetric", f"C09:py:asymmetric:{where}", i, "returned covariance symmetric to 1e-8 relative", f"max|P-P^T|/scale = {a:.3g}")
-        if neg > 1e-8:
-            res.add("C09", "negative", f"C09:py:negative:{where}", i, "returned covariance PSD to 1e-8 relative", f"-lambda_min/scale = {neg:.3g}")
+        a_in = float(np.max(np.abs(P_prior - P_prior.T)))
+        n_in = max(0.0, -reference.min_eig(P_prior))
+        a = float(np.max(np.abs(P - P.T)))
+        neg = max(0.0, -reference.min_eig(P))
+        g = 8.0 * max(1.0, gain)
+        self.worst["asym"], self.worst["neg"] = max(self.worst["asym"], a / sc), max(self.worst["neg"], neg / sc)
+        if a > g * a_in + 1e-9 * sc:
+            res.add("C09", "asymmetric", f"C09:py:asymmetric:{where}", i, f"returned covariance symmetric up to rounding: max|P-P^T| <= {g:.3g} x input asymmetry {a_in:.3g} + 1e-9 x {sc:.3g}", f"max|P-P^T| = {a:.3g}")
+        if neg > g * (n_in + a_in) + 1e-9 * sc:
+            res.add("C09", "negative", f"C09:py:negative:{where}", i, f"returned covariance PSD up to rounding: -lambda_min <= {g:.3g} x input defect {n_in + a_in:.3g} + 1e-9 x {sc:.3g}", f"-lambda_min = {neg:.3g}")
 
     # ---- one sensor update with all its oracles
     def update(self, i, key, st, cov, rd, at_prediction=False):
@@ -516,15 +523,17 @@ class Harness:
             res.add("C05", "covariance_value", f"C05:py:covariance_value:{tag}", i, f"P - K H P = {u['P_post'].tolist()}", f"{co.data.tolist()} (rel err {eP:.3g})")
         sc = max(1.0, float(np.max(np.abs(P_in)))) if P_in.size else 1.0
         if co.data.size:
-            if float(np.max(np.abs(co.data - co.data.T))) / sc > 1e-8:
-                res.add("C05", "posterior_asymmetric", "C05:py:posterior_asymmetric", i, "posterior covariance symmetric", f"{co.data.tolist()}")
-            if reference.min_eig(P_in - co.data) < -1e-8 * sc:
+            a_in = float(np.max(np.abs(P_in - P_in.T)))
+            g_upd = 8.0 * max(1.0, float(np.linalg.norm(np.eye(len(self.S)) - u["K"] @ u["H"], 2)))
+            if float(np.max(np.abs(co.data - co.data.T))) > g_upd * a_in + 1e-8 * sc:
+                res.add("C05", "posterior_asymmetric", "C05:py:posterior_asymmetric", i, "posterior covariance symmetric (beyond the asymmetry its input already had)", f"{co.data.tolist()}")
+            if reference.min_eig(P_in - co.data) < -(1e-8 * sc + g_upd * a_in):
                 res.add("C05", "posterior_exceeds_prior", "C05:py:posterior_exceeds_prior", i, "P - P+ positive semi-definite", f"lambda_min = {reference.min_eig(P_in - co.data):.3g}")
         if at_prediction:
             res.stats["probe:reading_equals_prediction"] += 1
             if so.data.tobytes() != st.data.tobytes() and not np.array_equal(so.data, st.data):
                 res.add("C05", "prediction_reading_moves_state", "C05:py:prediction_reading_moves_state", i, "a reading equal to the prediction leaves the state unchanged", f"{st.data.T.tolist()} -> {so.data.T.tolist()}")
-        self.cov_invariant(i, co.data, P_in, "update")
+        self.cov_invariant(i, co.data, P_in, "update", float(np.linalg.norm(np.eye(len(self.S)) - u["K"] @ u["H"], 2)))
         return so, co
 
 
